@@ -1,3 +1,3 @@
 From Coq Require Import Extraction ExtrOcamlBasic.
-From MTV Require Import Client.Model Client.Live.
-Extraction "model.ml" init init2 step2 run2 wire_out unacked settle retries getc lookup.
+From MTV Require Import Client.Model Client.Live Client.Rendezvous.
+Extraction "model.ml" init init2 step2 run2 wire_out unacked settle retries getc lookup xstep plain.
